@@ -67,7 +67,7 @@ def run(ctx):
             continue
         for reference in (("aufbau",) if kind != "multislater" else ("aufbau",)):
             try:
-                trial, wd, desc = trials.make(kind, rng, norb, ne, **wf.make_opts(kind))
+                trial, wd, desc = trials.make(kind, rng, norb, ne, **wf.make_opts(kind, rng))
                 sec, psi = trials.state(kind, trial, wd, desc)
                 ham, plain = trials.make_ham(rng, norb, nchol=3)
                 ham = trial._build_measurement_intermediates(dict(ham), wd)
